@@ -19,6 +19,7 @@ LEVEL_TEXT = (
     "rearranged by one random permutation, reshaped into every factorisation of N of rank 2 and 3 (length-1 axes "
     "included) and presented as transposed (non-contiguous) views of those grids. The result must have exactly the input shape and equal the correspondingly rearranged base result "
     "(masks identical, values within 1e-9 relative). No reference semantics are involved. Sampled, not exhaustive."
+    ' A replication relation (the same cells laid end to end up to 6000 times give the same results as many times over) and nearly equal large values (250001..250003) in double precision are included.'
 )
 LEVEL_NOTE = "Whole-array statistics are order-independent on the dyadic lattice inputs used; a 1e-9 relative tolerance absorbs summation-order rounding."
 RULE = (
